@@ -82,17 +82,18 @@ def run_tv(ctx, n_cases, max_len=800):
             rs, dc = find_zerox(c['sig'], np.array(pk), np.array(tr))
         except Exception:
             continue
-        with_mid = i % 4 != 3
-        recs.append(record_case(len(c['sig']), pk, tr, [int(x) for x in rs] if with_mid else None, [int(x) for x in dc] if with_mid else None,
+        mids = ['both', 'both', 'none', 'rises_only', 'decays_only', 'both'][i % 6]      # the documented call forms: either midpoint array may be omitted
+        with_mid = mids != 'none'
+        recs.append(record_case(len(c['sig']), pk, tr, [int(x) for x in rs] if mids in ('both', 'rises_only') else None, [int(x) for x in dc] if mids in ('both', 'decays_only') else None,
                                 ix_phase.DTYPES[i % len(ix_phase.DTYPES)]))
-        metas.append({'kind': c['kind'], 'first_extrema': first, 'boundary': boundary, 'with_midpoints': with_mid, 'sig_dtype': ix_phase.DTYPES[i % len(ix_phase.DTYPES)].__name__,
+        metas.append({'kind': c['kind'], 'first_extrema': first, 'boundary': boundary, 'with_midpoints': with_mid, 'midpoints': mids, 'sig_dtype': ix_phase.DTYPES[i % len(ix_phase.DTYPES)].__name__,
                       'last_cyclepoint_to_end': len(c['sig']) - 1 - max(pk + tr)})
     verdicts = tv.validate(ctx, 'Trace_Phase', recs, label='Trace_Phase')
     for r, m, fails in zip(recs, metas, verdicts):
         for f in fails:
             ctx.violation(f, 'extrema_interpolated_phase on cyclepoints of a %s signal (n=%d, %s)' % (m['kind'], r['n'], m),
-                          {'kind': 'tv_phase', 'n': r['n'], 'pk': r['pk'], 'tr': r['tr'], 'rs': r['rs'] if m['with_midpoints'] else None,
-                           'dc': r['dc'] if m['with_midpoints'] else None})
+                          {'kind': 'tv_phase', 'n': r['n'], 'pk': r['pk'], 'tr': r['tr'], 'rs': r['rs'] if m['midpoints'] in ('both', 'rises_only') else None,
+                           'dc': r['dc'] if m['midpoints'] in ('both', 'decays_only') else None})
     ctx.traces += len(recs)
     ctx.evaluations += len(recs)
     ctx.nontrivial += sum(1 for m in metas if m['last_cyclepoint_to_end'] <= 2 or m['with_midpoints'])
